@@ -51,6 +51,28 @@ def check_nullness(cx, rep, funcs_pred, rule='read result may be None at a deref
     return sites, opt
 
 
+def small_block_guard_ok(ct, tr, is_size):
+    """is the condition (ct is tr) `the block size is 0`?  decided by values: the size term inside it is given 0, 1 and 5 and the
+    condition must hold exactly for 0 (whatever its spelling: == 0, < 1, not size, size falsy ...); None when not evaluable"""
+    from ..semantic import evaluator
+    from ..termeval import NotEvaluable
+    size_terms = [x for x in walk(ct) if is_size(x)]
+    if not size_terms:
+        return False            # the test is not on the block size at all (it must be: block_size == 0 is the documented condition)
+    X = size_terms[0]
+    try:
+        res = {}
+        for v in (0, 1, 5):
+            e_ = evaluator({X: v})
+            got = e_.ev(ct)
+            if e_.leaves:
+                return None
+            res[v] = (bool(got) == tr)
+        return res == {0: True, 1: False, 5: False}
+    except NotEvaluable:
+        return None
+
+
 def check_one_inner_read(cx, rep):
     """each call of a wrapper's read() asks the wrapped source at most once, never in a loop: the tokenizer asks for one window at
     a time and hands a token over before asking again (C08: the source is not read further before the hand-over; end of stream
@@ -157,6 +179,13 @@ def check(repo, rep):
                 and (g[1][0] == 'attr' and g[1][2] in BS or P.call('int', P.prod(P.param('block_dur'), P.role('sampling_rate')))(g[1]))
             if l.conds and l.conds[-1][0][0] == 'attr' and l.conds[-1][1] is False and l.conds[-1][0][2] in BS:
                 ok = True      # `if not self._block_size`
+            if not ok and l.conds:
+                sem_ = small_block_guard_ok(l.conds[-1][0], l.conds[-1][1], lambda x: (x[0] == 'attr' and x[1] == ('self',) and x[2] in BS) or P.call('int', P.prod(P.param('block_dur'), P.role('sampling_rate')))(x))
+                if sem_ is None:
+                    rep.unknown('_FixedSizeAudioReader.__init__: the condition under which TooSmallBlockDuration is raised (%s) could not be evaluated' % show(l.conds[-1][0])[:80])
+                    seen_small = True
+                    continue
+                ok = sem_
             rep.ob('TooSmallBlockDuration exactly when block_size == 0', ok, W(l.node), '_FixedSizeAudioReader.__init__:TooSmallBlockDuration',
                    'TooSmallBlockDuration is raised under %s' % (show(l.conds[-1][0]) if l.conds else 'no condition'))
             seen_small = True
@@ -374,6 +403,31 @@ def check(repo, rep):
         gs = [norm_cmp(c[0], c[1]) for c in l.conds]
         is_none = any(g and g[0] == 'is' and g[1] == ('p', 'hop_dur') and g[2] == ('c', None) for g in gs)
         is_eq = any(g and g[0] == '==' and {g[1], g[2]} == {('p', 'hop_dur'), ('p', 'block_dur')} for g in gs)
+        if not (is_none or is_eq):
+            # decided by values: (hop, block) pairs are taken through the path's tests on them; the fixed-size reader may be chosen
+            # for hop None and hop == block only
+            from ..semantic import evaluator as _ev10
+            from ..termeval import NotEvaluable as _NE10
+            takers_ = []
+            for hop_, blk_ in ((None, 0.5), (0.5, 0.5), (0.2, 0.5), (0.7, 0.5)):
+                ok_ = True
+                for ct, tr, _ in l.conds:
+                    if not any(x in (('p', 'hop_dur'), ('p', 'block_dur')) for x in walk(ct)):
+                        continue
+                    try:
+                        e_ = _ev10({('p', 'hop_dur'): hop_, ('p', 'block_dur'): blk_})
+                        got_ = e_.ev(ct)
+                    except _NE10:
+                        continue
+                    if e_.leaves:
+                        continue
+                    if bool(got_) != tr:
+                        ok_ = False
+                        break
+                if ok_:
+                    takers_.append((hop_, blk_))
+            if takers_ and set(takers_) <= {(None, 0.5), (0.5, 0.5)}:
+                is_none = True
         rep.ob('the non-overlapping reader is used only when hop_dur is None or equals block_dur (any other hop must reach the overlap reader, which rejects hop_dur > block_dur)', is_none or is_eq, W(st[-1][3]),
                'AudioReader.__init__:routing', 'fixed-size reader chosen under %s' % [(show(c[0])[:60], c[1]) for c in l.conds if any(x == ('p', 'hop_dur') for x in walk(c[0]))],
                sample=dict(routing='fixed', conditions=[(show(c[0])[:50], c[1]) for c in l.conds if any(x == ('p', 'hop_dur') for x in walk(c[0]))]))
